@@ -920,6 +920,15 @@ def _compare_step(sres, fres):
     return diffs
 
 
+K1_SIG = 'EXC:RecursionError@recursion-through:jedi/inference/value/klass.py:get_filters'
+
+
+def _k1_vs_answer(a, b):
+    ea = isinstance(a, str) and a.startswith('EXC:')
+    eb = isinstance(b, str) and b.startswith('EXC:')
+    return (ea != eb) and (a == K1_SIG or b == K1_SIG)
+
+
 def _both_crash_stack_dependent(a, b):
     return (isinstance(a, str) and isinstance(b, str) and a.startswith('EXC:') and b.startswith('EXC:')
             and (a.startswith('EXC:RecursionError') or b.startswith('EXC:RecursionError')))
@@ -1108,6 +1117,15 @@ def stream_history(ctx):
             cmp_ = _compare_step(sr, fr)
             n_crash_pairs += len(sr.get('_crash_pairs', ()))
             for (key, hv, fv) in cmp_:
+                if _k1_vs_answer(hv, fv):
+                    # one side dies in the typeshed-less get_filters cycle (K1, C01/C15's listed finding), the other
+                    # answers: whether that cycle is entered depends on state earlier Scripts of the process left behind
+                    ctx.deviation(dict(stream='history', cls='k1-recursion-vs-answer', predicted=False),
+                                  dict(session=_strip(dict(s, steps=s['steps'][:i + 1])), step=i, query=key,
+                                       in_history=hv if isinstance(hv, str) else '<answer>',
+                                       fresh=fv if isinstance(fv, str) else '<answer>'),
+                                  '%s: RecursionError through klass.get_filters on one side, an answer on the other' % key)
+                    continue
                 cls = classify_known(s, r[1], i, key, hv, fv)
                 if cls and cls[0] == 'verify':
                     to_verify.append((s, i, key, hv, fv, cls[1]))
